@@ -37,19 +37,39 @@ def parseItem (w : String) : Option Item :=
       else none
   | _ => none
 
-def handle : List String → String
+/-- the run a line describes: emissions, exception, the ports of the combinator -/
+def runLine : List String → Option (List Emit × Option Err × List Nat)
   | "dot" :: p :: evs =>
       match p.toNat?, evs.mapM parseEv with
-      | some P, some es => let r := runDot P es; renderOut r.out r.err
-      | _, _ => "bad-op"
+      | some P, some es => let r := runDot P es; some (r.out, r.err, List.range P)
+      | _, _ => none
   | "cart" :: d :: p :: evs =>
       match d.toNat?, p.toNat?, evs.mapM parseEv with
-      | some (d + 1), some P, some es => let r := runCart (d + 1) P es; renderOut r.out r.err
-      | _, _, _ => "bad-op"
+      | some (d + 1), some P, some es => let r := runCart (d + 1) P es; some (r.out, r.err, List.range P)
+      | _, _, _ => none
   | "nest" :: spec :: evs =>
       match (spec.splitOn "/").mapM parseItem, evs.mapM parseEv with
-      | some items, some es => let r := runNested items es; renderOut r.out r.err
-      | _, _ => "bad-op"
-  | _ => "bad-op"
+      | some items, some es =>
+          let r := runNested items es
+          let ports := items.flatMap (fun it => match it with | .port p => [p] | .sub _ ps => ps)
+          some (r.out, r.err, ports)
+      | _, _ => none
+  | _ => none
+
+def renderLog (ts : List Tok) : String :=
+  if ts.isEmpty then "-" else ",".intercalate (ts.map (fun t => s!"{renderTag t.tag}:{t.val}"))
+
+def handle : List String → String
+  | "step" :: rest =>
+      -- `CombinatorStep.run`: the log of every output port (in the order of the ports) and the final status
+      match runLine rest with
+      | some (out, err, ports) =>
+          "|".intercalate (ports.map (fun p => s!"{p}={renderLog (portLog p out)}")) ++ "|" ++
+            (match stepStatus ports out with | .completed => "COMPLETED" | .skipped => "SKIPPED") ++ renderErr err
+      | none => "bad-op"
+  | ws =>
+      match runLine ws with
+      | some (out, err, _) => renderOut out err
+      | none => "bad-op"
 
 def main : IO Unit := runPure handle
